@@ -6,6 +6,7 @@
   `tables_are_the_common_year`.
 -/
 import GHEVerif.Lemmas.TimeConv
+import GHEVerif.Gen.Report
 
 namespace GHEVerif.C19
 open GHEVerif GHEVerif.TimeConv
@@ -170,5 +171,50 @@ theorem time_convert_table_check :
       decide (1 ≤ m ∧ m ≤ 12 ∧ 1 ≤ d ∧ d ≤ commonYear[(m - 1).toNat]?.getD 0 ∧ 1 ≤ k ∧ k ≤ 24 ∧
         (n : Int) = cum (m - 1).toNat + 24 * (d - 1) + (k - 1))) = true := by
   set_option maxRecDepth 100000 in decide +kernel
+
+/-! ### the loads table and the bore-field table -/
+
+/-- The loop of `get_hourly_loading_data` as regenerated from output.py on this run (locals renamed
+    in order of appearance): it walks `enumerate(design.ghe.hourly_extraction_ground_loads)` and
+    appends `[month, day, hour, index, load]` with the label of `ghe_time_convert(index)`. -/
+theorem loading_table_statements :
+    Gen.loadingSourceExpr = "v1 = v0.ghe.hourly_extraction_ground_loads" ∧
+    Gen.loadingLoopExpr = "for (v3, v4) in enumerate(v1)" ∧
+    Gen.loadingBody = ["v5, v6, v7 = self.ghe_time_convert(v3)", "v2.append([v5, v6, v7, v3, v4])"] ∧
+    Gen.loadingReturnExpr = "return v2" := by decide
+
+/-- The loads table echoes the input loads, all of them, in order, each with its index. -/
+theorem loading_rows_echo (loads : List Rat) :
+    (loadingRows loads).map (fun r => r.2.2.2.2) = loads ∧
+    (loadingRows loads).map (fun r => r.2.2.2.1) = List.range loads.length ∧
+    (loadingRows loads).length = loads.length := by
+  unfold loadingRows
+  refine ⟨?_, ?_, by simp⟩
+  · simp [List.map_map, Function.comp_def]
+  · simp only [List.map_map, Function.comp_def, List.zipIdx_eq_zip_range', List.range_eq_range']
+    exact List.map_snd_zip (by simp)
+
+/-- Row `i` of the loads table carries load `i` under the calendar label of hour `i` of the common
+    year: month `m+1`, day and hour in range, decoding back to `i` (for the 8760 hours the property
+    quantifies over). -/
+theorem loading_rows_labels (loads : List Rat) (i : Nat) (hi : i < loads.length) (h8760 : i < 8760) :
+    ∃ m : Nat, m < 12 ∧
+      (loadingRows loads)[i]? = some ((m : Int) + 1, ((i : Int) - cum m) / 24 + 1, ((i : Int) - cum m) % 24 + 1, i, loads[i]) ∧
+      1 ≤ ((i : Int) - cum m) / 24 + 1 ∧ ((i : Int) - cum m) / 24 + 1 ≤ commonYear[m]?.getD 0 ∧
+      (i : Int) = cum m + 24 * (((i : Int) - cum m) / 24 + 1 - 1) + (((i : Int) - cum m) % 24 + 1 - 1) := by
+  obtain ⟨m, hm, heq, d1, d2, _, _, hdec⟩ := time_convert_correct (i : Int) (by omega) (by omega)
+  refine ⟨m, hm, ?_, d1, d2, hdec⟩
+  unfold loadingRows
+  simp [hi, heq]
+
+/-- The bore-field table lists exactly the selected coordinates, in order. -/
+theorem bore_rows_echo (coords : List (Rat × Rat)) :
+    (boreRows coords).length = coords.length ∧
+    ∀ i (h : i < coords.length), (boreRows coords)[i]? = some [coords[i].1, coords[i].2] := by
+  unfold boreRows
+  refine ⟨by simp, fun i h => by simp [h]⟩
+
+/-- Non-vacuity: three loads give three rows labelled 1 January, hours 1..3. -/
+example : loadingRows [5, -7, 0] = [(1, 1, 1, 0, 5), (1, 1, 2, 1, -7), (1, 1, 3, 2, 0)] := by decide +kernel
 
 end GHEVerif.C19
